@@ -817,7 +817,102 @@ func (r *c19Run) nextHops() {
 	}
 }
 
+// c19Retention: a list handed to the user closure must stay what was decoded when
+// further fields are decoded through the same DecodeFn (an application keeps the slice,
+// as the package's own example does): several different fields are decoded in a row,
+// the closures keep the very slices they were given, and all are compared afterwards.
+func c19Retention(c *harness.Ctx) {
+	if c.Shard != 0 {
+		return
+	}
+	type kept struct {
+		plain []netip.Prefix
+		ap    []corebgp.AddPathPrefix
+	}
+	mk := func(i int, addPath bool, v6 bool) []refmodel.Route {
+		var rs []refmodel.Route
+		n := 1 + i%3
+		for j := 0; j < n; j++ {
+			bits := (i*7 + j*5) % 33
+			if v6 {
+				bits = (i*13 + j*11) % 129
+			}
+			addr := make([]byte, refmodel.PrefixOctets(bits))
+			for k := range addr {
+				addr[k] = byte(0x10*i + j + k + 1)
+			}
+			if bits%8 != 0 && len(addr) > 0 {
+				addr[len(addr)-1] &= 0xff << (8 - bits%8)
+			}
+			rs = append(rs, refmodel.Route{HasID: addPath, ID: uint32(1000*i + j), Bits: bits, Addr: addr})
+		}
+		return rs
+	}
+	same := func(got []c19Got, want []refmodel.Route) bool {
+		if len(got) != len(want) {
+			return false
+		}
+		for i := range got {
+			if got[i].bits != want[i].Bits || got[i].hasID != want[i].HasID || (want[i].HasID && got[i].id != want[i].ID) || !refmodel.SameLeadingBits(got[i].addr, want[i].Addr, want[i].Bits) {
+				return false
+			}
+		}
+		return true
+	}
+	type dec struct {
+		name    string
+		addPath bool
+		v6      bool
+		run     func(field []byte, k *kept) error
+	}
+	plainFn := func(k *kept, ps []netip.Prefix) error { k.plain = ps; return nil }
+	apFn := func(k *kept, ps []corebgp.AddPathPrefix) error { k.ap = ps; return nil }
+	nl := corebgp.NewNLRIDecodeFn[*kept](plainFn)
+	wd := corebgp.NewWithdrawnRoutesDecodeFn[*kept](plainFn)
+	nlAP := corebgp.NewNLRIAddPathDecodeFn[*kept](apFn)
+	wdAP := corebgp.NewWithdrawnAddPathRoutesDecodeFn[*kept](apFn)
+	decs := []dec{
+		{"NLRI", false, false, func(f []byte, k *kept) error { return nl(k, f) }},
+		{"withdrawn", false, false, func(f []byte, k *kept) error { return wd(k, f) }},
+		{"NLRI-addpath", true, false, func(f []byte, k *kept) error { return nlAP(k, f) }},
+		{"withdrawn-addpath", true, false, func(f []byte, k *kept) error { return wdAP(k, f) }},
+		{"MP-IPv6", false, true, func(f []byte, k *kept) error { p, err := corebgp.DecodeMPIPv6Prefixes(f); k.plain = p; return err }},
+		{"MP-IPv6-addpath", true, true, func(f []byte, k *kept) error { p, err := corebgp.DecodeMPIPv6AddPathPrefixes(f); k.ap = p; return err }},
+	}
+	for _, d := range decs {
+		for win := 2; win <= 5; win++ {
+			for start := 0; start < 12; start++ {
+				var ks []*kept
+				var wants [][]refmodel.Route
+				for i := start; i < start+win; i++ {
+					want := mk(i, d.addPath, d.v6)
+					k := &kept{}
+					if err := d.run(refmodel.EncodePrefixes(want), k); err != nil {
+						break
+					}
+					ks, wants = append(ks, k), append(wants, want)
+				}
+				c.Eval([]byte(fmt.Sprintf("retention/%s/%d/%d", d.name, win, start)), true)
+				for i, k := range ks {
+					var got []c19Got
+					if d.addPath {
+						got = c19AddPath(k.ap)
+					} else {
+						got = c19Plain(k.plain)
+					}
+					if !same(got, wants[i]) {
+						c.Violation("decoded-list-changed", "C19:"+d.name+":decoded-list-not-stable", fmt.Sprintf("%s: the list decoded from field #%d of %d consecutive fields changed after later decodes (now %v, encoded %v): routes are invented/dropped from the application's point of view", d.name, i+1, win, got, wants[i]),
+							map[string]any{"retention_decoder": d.name, "window": win, "start": start})
+						return
+					}
+				}
+			}
+		}
+	}
+}
+
 func c19Check(c *harness.Ctx) {
+	c19Retention(c)
 	r := &c19Run{c: c, th: c.Thorough(), evals: map[string]float64{}, classes: map[string]float64{}}
 	// cheap families first
 	r.nextHops()
